@@ -248,3 +248,86 @@ impl Scenario for Race {
         out
     }
 }
+
+/// S-RACE through the real scanner: phase 2 of `scan_workspace` on 2-4 simulated rayon workers over
+/// files whose names collide, interleaved densely; the index must equal, as multisets, the index of a
+/// sequential scan (one worker, no preemption).
+pub struct RaceScan;
+
+#[derive(Clone, Debug, Serialize, Deserialize)]
+pub struct RaceScanInput {
+    pub spec: super::ws::WsSpec,
+    pub sim: SimParams,
+    pub run_seed: u64,
+    #[serde(default)]
+    pub sandbox: Option<String>,
+}
+
+impl Scenario for RaceScan {
+    fn name(&self) -> &'static str {
+        "race-scan"
+    }
+    fn rule(&self) -> &'static str {
+        "generated workspace over a 2-3 name pool scanned by the real scan_workspace on 2-4 simulated workers with dense preemption (random walk \
+         p>=5%, PCT) and 1/2/4 shards; the index as multisets (definitions, reverse indices, usages, imports) must equal that of a sequential scan; \
+         non-trivial = >= 2 workers overlapped and some name is defined or used in >= 2 files; distinct = spec hash x decision list"
+    }
+    fn runs(&self, tier: Tier) -> u64 {
+        match tier {
+            Tier::Quick => 2_500,
+            Tier::Thorough => 120_000,
+        }
+    }
+    fn shrink_paths(&self) -> Vec<&'static str> {
+        vec!["/spec/files", "/spec/files/*/items", "/decisions/1"]
+    }
+    fn gen(&self, run_seed: u64, _tier: Tier) -> Value {
+        let mut rng = Rng::new(run_seed);
+        let mut o = super::ws::WsOpts::default();
+        o.file.in_class = false;
+        o.imports = false;
+        o.n_names = rng.range(2, 3);
+        o.max_dirs = 3;
+        let spec = super::ws::gen_ws(&mut rng, &o);
+        let mut sim = SimParams::dense(&mut rng, 3000);
+        sim.workers = rng.range(2, 4);
+        serde_json::to_value(RaceScanInput { spec, sim, run_seed, sandbox: None }).unwrap()
+    }
+    fn exec(&self, input: &Value) -> RunOut {
+        let mut out = RunOut::default();
+        let inp: RaceScanInput = match serde_json::from_value(input.clone()) {
+            Ok(i) => i,
+            Err(e) => {
+                out.harness_error = Some(format!("bad input: {}", e));
+                return out;
+            }
+        };
+        let sb = super::util::Sandbox::acquire("c09s", inp.run_seed, inp.sandbox.as_deref().map(Path::new));
+        let root = inp.spec.materialise(&sb.root());
+        let seq_sim = SimParams { strategy: "random".into(), param: 0, workers: 1, ..inp.sim.clone() };
+        let (oc0, s0) = super::scen_resolve::scan_then(&seq_sim, replay_list(input, 0), root.clone(), |db, root| map_snap(db, root));
+        out.absorb_outcome(&oc0);
+        let (oc, s1) = super::scen_resolve::scan_then(&inp.sim, replay_list(input, 1), root.clone(), |db, root| map_snap(db, root));
+        out.absorb_outcome(&oc);
+        out.fingerprint = mix(fnv(&serde_json::to_string(&inp.spec).unwrap()), oc.log_hash);
+        for o in [&oc0, &oc] {
+            if let Some(a) = &o.abort {
+                super::scen_resolve::abort_to_violation(&mut out, a, "parallel scan");
+                return out;
+            }
+        }
+        let (Some(s0), Some(s1)) = (s0, s1) else {
+            out.harness_error = Some("no snapshot".into());
+            return out;
+        };
+        out.nontrivial = oc.switches > 2 && oc.threads >= 3;
+        out.state_hash = s1.hash();
+        if let Some(c) = s1.consistency() {
+            out.violate("race-dangling", format!("index inconsistent after the parallel scan: {}", c));
+        }
+        if let Some(d) = s0.diff(&s1, false) {
+            out.violate("race-not-sequential", format!("parallel scan ({} workers) differs from the sequential scan as multisets: {}", inp.sim.workers, d));
+        }
+        out
+    }
+}
